@@ -7,6 +7,7 @@ PROP_MODULES = {
     'C20': ['contracts.builders', 'contracts.shared_grid', 'contracts.c03_grid', 'contracts.c04_meta', 'contracts.c08_creator', 'contracts.c13_expiry', 'contracts.c16_limits', 'contracts.c20_conditional'],
     'C17': ['contracts.builders', 'contracts.shared_grid', 'contracts.c03_grid', 'contracts.c17_upstream'],
     'C10': ['contracts.builders', 'contracts.shared_grid', 'contracts.c03_grid', 'contracts.c04_meta', 'contracts.c16_limits', 'contracts.c20_conditional', 'contracts.c10_auth', 'contracts.c14_merge'],
+    'C12': ['contracts.builders', 'contracts.shared_grid', 'contracts.c03_grid', 'contracts.c04_meta', 'contracts.c08_creator', 'contracts.c11_seed', 'contracts.c13_expiry', 'contracts.c12_cleanup'],
     'C11': ['contracts.builders', 'contracts.shared_grid', 'contracts.c03_grid', 'contracts.c04_meta', 'contracts.c11_seed'],
     'C15': ['contracts.builders', 'contracts.c15_async'],
     'C14': ['contracts.builders', 'contracts.c14_merge'],
@@ -37,6 +38,15 @@ NOT_APPLICABLE = {
 }
 
 MANIFEST_META = {
+    'C12': dict(
+        text='Proof on the real cleanup code (every iteration of the walks, all inputs): cleanup_directory hands a file to the '
+             'remove handler iff remove_all or lstat(path).st_mtime < before_timestamp (strict, the file\'s own mtime, links not '
+             'followed), with the walked path; simple_cleanup / cache_cleanup pass each selected level with exactly '
+             'task.remove_timestamp and task.remove_all (nothing in dry-run); the tile-walk strategy inherits the walker '
+             'obligations of C11 (recursion only into intersecting sub tiles with the right all_subtiles flag) and '
+             'is_stale <=> exists and not fresh (C13).',
+        note='level-directory/tile-path consistency of the layouts (suspect S4: tms), SQL deletes of the sqlite backends, '
+             'real file-system time stamps and shutil.rmtree are outside; strategy choice in cleanup() not yet under contract'),
     'C11': dict(
         text='Proof on the real seeder code: SeedProgress.can_skip is exactly "current is behind old" for progress paths of '
              'any length (first differing position decides, a prefix or the path itself is never skipped); limit_sub_bbox is '
